@@ -163,7 +163,7 @@ fn repo_files() -> Vec<std::path::PathBuf> {
 pub fn check(ctx: &Ctx) -> i32 {
     let start = Instant::now();
     let mut ev = Evidence::default();
-    ev.rule = "inputs: (a) grammar-directed random programs (every term form in every operand position, explicit parentheses, negative literals, zero comparisons in both token orders, empty clause lists, type arguments, :cns bindings, comment/blank-line noise), (b) generated well-typed programs, (c) every .sc file of the repository; each with 3 configurations drawn from widths 1..200 and indents 0..8. Oracle: p1 = parse(text); t2 = print(p1, cfg); p2 = parse(t2) must succeed and equal p1 (spans ignored); print(p2, cfg) == t2. (d) a sample of (a) is written to a file and formatted twice with the real `scc fmt --inplace --width W --indent I`: exit status 0, the file parses to the same tree, the second run leaves it unchanged. Non-trivial: the printed text differs from the same tree printed at unlimited width (a line was broken because of the width); distinct by hash of (source, width, indent).".into();
+    ev.rule = "inputs: (a) grammar-directed random programs (every term form in every operand position, explicit parentheses, negative literals, zero comparisons in both token orders, empty clause lists, type arguments, :cns bindings, comment/blank-line noise), (b) generated well-typed programs, (c) every .sc file of the repository; each with 3 configurations drawn from widths 1..200 and indents 0..8. Oracle: p1 = parse(text); t2 = print(p1, cfg); p2 = parse(t2) must succeed and equal p1 (spans ignored); print(p2, cfg) == t2. (d) a sample of (a) is written to a file and formatted with the real `scc fmt --width W --indent I`, either twice with `--inplace` (exit status 0, the file parses to the same tree, the second run leaves it unchanged) or with `-o` onto the file itself (same spelling, or `./name`) or to another file (the written file parses to the same tree, the input is untouched). Non-trivial: the printed text differs from the same tree printed at unlimited width (a line was broken because of the width); distinct by hash of (source, width, indent).".into();
     ev.assumptions = vec!["derived equality of fun::syntax::program::Program ignores spans only".into()];
     let mut report = Report { violations: vec![], infra_errors: vec![] };
     // known finding D9: replay the recorded inputs
@@ -224,7 +224,8 @@ pub fn check(ctx: &Ctx) -> i32 {
                     let n3 = ctx.tier.pick(300, 20000);
                     let run3 = |b: &[u8]| {
                         let (text, cfgs) = syntax_case(ctx, b);
-                        super::cli::c16_cli_case(ctx, &exe, &text, cfgs[0].0, cfgs[0].1)
+                        let mode = b.last().copied().unwrap_or(0) as usize % 4;
+                        super::cli::c16_cli_case_mode(ctx, &exe, &text, cfgs[0].0, cfgs[0].1, mode)
                     };
                     let out3 = drive(&mut ev, ctx.seed, 216, n3, 40, 1500, 60, &run3);
                     if let Some((bytes, f)) = out3.failure {
@@ -274,7 +275,8 @@ pub fn replay(ctx: &Ctx, sub: &str, bytes: &[u8], case: &serde_json::Value) -> C
     if sub.starts_with("cli") {
         let Some(exe) = super::cli::scc_exe(ctx) else { return CaseResult::Discard("infra: scc binary not built".into()) };
         let (text, cfgs) = syntax_case(ctx, bytes);
-        return super::cli::c16_cli_case(ctx, &exe, &text, cfgs[0].0, cfgs[0].1);
+        let mode = bytes.last().copied().unwrap_or(0) as usize % 4;
+        return super::cli::c16_cli_case_mode(ctx, &exe, &text, cfgs[0].0, cfgs[0].1, mode);
     }
     if sub.starts_with("file") {
         let f = case["file"].as_str().unwrap_or("");
